@@ -8,7 +8,7 @@
    api_equal4), on the value aval4 a legacy node denotes (members in the order of the model's
    association list; marshal4 then sorts the names). *)
 From JP Require Import Bytes Json Text Strings Den Rfc7396 ImplV5 ImplMerge ImplV4 JsonFacts MergeFacts
-  Abs ImplMergeFacts Codec V4MergeFacts V4EqualFacts.
+  Abs ImplMergeFacts Codec V4MergeFacts V4EqualFacts Domain V4EqualDomain.
 
 Theorem C19_compose_law : forall d p1 p2,
   onodup d = true -> onodup p1 = true -> onodup p2 = true -> compatible p1 p2 = true ->
@@ -122,19 +122,35 @@ Theorem C19_node_equal4 : forall n o, good4 n -> good4 o -> node_equal4 n o = je
 Proof. exact node_equal4_spec. Qed.
 Print Assumptions C19_node_equal4.
 
+(* Equal, on the property's domain: texts whose root is an object or an array (Domain.root_container).
+   The restriction is needed for the statement to be about the library: the Go legacy Equal answers
+   true for (null, {}), ({}, null) and ([], null) -- a node read from the text null is the nil pointer
+   and falls through the comparison -- while the model api_equal4 answers Some false there (see
+   C19_Equal_null_root_outside_domain below).  Without root_container the theorems would assert the
+   model's answer for null-rooted texts, which is not the library's.  V4EqualDomain.v. *)
 Theorem C19_Equal : forall a b ta tb,
-  parse a = Some ta -> parse b = Some tb -> tnodup ta = true -> tnodup tb = true ->
-  tplain ta = true -> tplain tb = true ->
+  parse a = Some ta -> parse b = Some tb -> root_container ta = true -> root_container tb = true ->
+  tnodup ta = true -> tnodup tb = true -> tplain ta = true -> tplain tb = true ->
   api_equal4 a b = Some (jeq (den ta) (den tb)).
-Proof. exact api_equal4_spec. Qed.
+Proof. exact api_equal4_spec_container. Qed.
 Print Assumptions C19_Equal.
 
 (* without the hypothesis on strings one direction remains: what legacy Equal accepts is equal *)
 Theorem C19_Equal_sound : forall a b ta tb,
-  parse a = Some ta -> parse b = Some tb -> tnodup ta = true -> tnodup tb = true ->
+  parse a = Some ta -> parse b = Some tb -> root_container ta = true -> root_container tb = true ->
+  tnodup ta = true -> tnodup tb = true ->
   api_equal4 a b = Some true -> jeq (den ta) (den tb) = true.
-Proof. exact api_equal4_sound. Qed.
+Proof. exact api_equal4_sound_container. Qed.
 Print Assumptions C19_Equal_sound.
+
+(* OUTSIDE the property's domain: at a null root the model says Some false; the Go function says
+   true for these three pairs.  Recorded so that nobody reads the model's answer here as a claim
+   about the library: root_container TNull = false, so C19_Equal / C19_Equal_sound do not apply. *)
+Example C19_Equal_null_root_outside_domain :
+  api_equal4 (B "null") (B "{}") = Some false /\ api_equal4 (B "{}") (B "null") = Some false /\
+  api_equal4 (B "[]") (B "null") = Some false /\
+  root_container TNull = false /\ parse (B "null") = Some TNull.
+Proof. exact api_equal4_null_root. Qed.
 
 Theorem C19_node_equal4_sound : forall n o,
   good4w n -> good4w o -> node_equal4 n o = true -> jeq (aval4 n) (aval4 o) = true.
@@ -154,24 +170,39 @@ Theorem C19_Equal_compares_spellings :
 Proof. exact equal4_naive_false_strings. Qed.
 Print Assumptions C19_Equal_compares_spellings.
 
-(* ---- wiring of OutputFacts.v: the bytes the legacy MergePatch / MergeMergePatches return are a JSON text
-   that parses to a value equal, up to member order, to the RFC 7396 result (no hypothesis on strings) ---- *)
+(* ---- wiring of OutputFacts.v / V4EqualDomain.v: the bytes the legacy MergePatch / MergeMergePatches return
+   are a JSON text that parses to a value WITHOUT REPEATED NAMES equal, up to member order, to the RFC 7396
+   result (no hypothesis on strings).  The no-repeated-names half matters: jeq looks the members of its left
+   argument up in the right one, so jeq (den t') spec alone would also be met by an output that repeats a
+   name (V4EqualDomain.jeq_onesided_with_repeated_name); with onodup (den t') the comparison holds in both
+   directions (C19_MergePatch_output_bytes_both).  Same shape as C18_apply_output_bytes. ---- *)
 From JP Require Import Scan OutputFacts.
 
 Theorem C19_MergePatch_output_bytes : forall doc patch td tp,
   parse doc = Some td -> parse patch = Some tp -> td <> TNull -> tnodup td = true -> tnodup tp = true ->
   scalar_text tp = false ->
   exists out t', api_merge4 false doc patch = MOut out /\ parse out = Some t' /\
-                 jeq (den t') (merge_patch (den td) (den tp)) = true /\ valid_gen out = true.
-Proof. exact api_merge4_output_bytes. Qed.
+                 jeq (den t') (merge_patch (den td) (den tp)) = true /\ onodup (den t') = true /\
+                 valid_gen out = true.
+Proof. exact api_merge4_output_bytes_strong. Qed.
 Print Assumptions C19_MergePatch_output_bytes.
+
+Theorem C19_MergePatch_output_bytes_both : forall doc patch td tp,
+  parse doc = Some td -> parse patch = Some tp -> td <> TNull -> tnodup td = true -> tnodup tp = true ->
+  scalar_text tp = false ->
+  exists out t', api_merge4 false doc patch = MOut out /\ parse out = Some t' /\
+                 jeq (den t') (merge_patch (den td) (den tp)) = true /\
+                 jeq (merge_patch (den td) (den tp)) (den t') = true.
+Proof. exact api_merge4_output_bytes_both. Qed.
+Print Assumptions C19_MergePatch_output_bytes_both.
 
 Theorem C19_MergeMergePatches_output_bytes : forall p1 p2 ms1 t2,
   parse p1 = Some (TObj ms1) -> parse p2 = Some t2 -> tnodup (TObj ms1) = true -> tnodup t2 = true ->
   compatible (den (TObj ms1)) (den t2) = true -> scalar_text t2 = false ->
   exists out t', api_merge4 true p1 p2 = MOut out /\ parse out = Some t' /\
-                 jeq (den t') (mm (den (TObj ms1)) (den t2)) = true /\ valid_gen out = true.
-Proof. exact api_mergemerge4_output_bytes. Qed.
+                 jeq (den t') (mm (den (TObj ms1)) (den t2)) = true /\ onodup (den t') = true /\
+                 valid_gen out = true.
+Proof. exact api_mergemerge4_output_bytes_strong. Qed.
 Print Assumptions C19_MergeMergePatches_output_bytes.
 
 Example C19_nonvacuous :
@@ -180,3 +211,63 @@ Example C19_nonvacuous :
   api_merge4 true (B "{""a"":{""x"":1}}") (B "{""a"":{""x"":null,""y"":2}}") = MOut (B "{""a"":{""x"":null,""y"":2}}") /\
   api_equal4 (B "{""a"":[1,null],""b"":""s""}") (B " {""b"":""s"",""a"":[1,null]}") = Some true.
 Proof. vm_compute. repeat split; reflexivity. Qed.
+
+(* ---- the main theorems applied: every hypothesis of C19_MergePatch, C19_MergePatch_output_bytes (strong
+   form), C19_MergeMergePatches, C19_MergeMergePatches_output_bytes, C19_Equal and C19_Equal_sound discharged
+   on the texts of C19_nonvacuous (object roots, plain strings).  The patches are objects, so the merge
+   theorems yield their second branch. ---- *)
+Definition C19_ex_doc := B "{""b"":{""x"":1,""y"":2},""a"":1}".
+Definition C19_ex_patch := B "{""b"":{""x"":null,""z"":[null]},""c"":{""d"":null}}".
+Definition C19_ex_p1 := B "{""a"":{""x"":1}}".
+Definition C19_ex_p2 := B "{""a"":{""x"":null,""y"":2}}".
+Definition C19_ex_e1 := B "{""a"":[1,null],""b"":""s""}".
+Definition C19_ex_e2 := B " {""b"":""s"",""a"":[1,null]}".
+Definition C19_ex_td : tjson := Eval vm_compute in match parse C19_ex_doc with Some t => t | None => TNull end.
+Definition C19_ex_tp : tjson := Eval vm_compute in match parse C19_ex_patch with Some t => t | None => TNull end.
+Definition C19_ex_ms1 : list (bytes * tjson) := Eval vm_compute in match parse C19_ex_p1 with Some (TObj ms) => ms | _ => [] end.
+Definition C19_ex_t2 : tjson := Eval vm_compute in match parse C19_ex_p2 with Some t => t | None => TNull end.
+Definition C19_ex_ta : tjson := Eval vm_compute in match parse C19_ex_e1 with Some t => t | None => TNull end.
+Definition C19_ex_tb : tjson := Eval vm_compute in match parse C19_ex_e2 with Some t => t | None => TNull end.
+
+Example C19_main_theorem_applies :
+  (exists n, api_merge4 false C19_ex_doc C19_ex_patch = MOut (marshal4 n) /\ nwf4 n /\
+             aval4 n = merge_patch (den C19_ex_td) (den C19_ex_tp)) /\
+  (exists out t', api_merge4 false C19_ex_doc C19_ex_patch = MOut out /\ parse out = Some t' /\
+             jeq (den t') (merge_patch (den C19_ex_td) (den C19_ex_tp)) = true /\ onodup (den t') = true /\
+             valid_gen out = true) /\
+  (exists n, api_merge4 true C19_ex_p1 C19_ex_p2 = MOut (marshal4 n) /\ nwf4 n /\
+             aval4 n = mm (den (TObj C19_ex_ms1)) (den C19_ex_t2)) /\
+  (exists out t', api_merge4 true C19_ex_p1 C19_ex_p2 = MOut out /\ parse out = Some t' /\
+             jeq (den t') (mm (den (TObj C19_ex_ms1)) (den C19_ex_t2)) = true /\ onodup (den t') = true /\
+             valid_gen out = true) /\
+  api_equal4 C19_ex_e1 C19_ex_e2 = Some (jeq (den C19_ex_ta) (den C19_ex_tb)) /\
+  jeq (den C19_ex_ta) (den C19_ex_tb) = true.
+Proof.
+  assert (Pd : parse C19_ex_doc = Some C19_ex_td) by (vm_compute; reflexivity).
+  assert (Pp : parse C19_ex_patch = Some C19_ex_tp) by (vm_compute; reflexivity).
+  assert (NN : C19_ex_td <> TNull) by discriminate.
+  assert (Nd : tnodup C19_ex_td = true) by (vm_compute; reflexivity).
+  assert (Np : tnodup C19_ex_tp = true) by (vm_compute; reflexivity).
+  assert (P1 : parse C19_ex_p1 = Some (TObj C19_ex_ms1)) by (vm_compute; reflexivity).
+  assert (P2 : parse C19_ex_p2 = Some C19_ex_t2) by (vm_compute; reflexivity).
+  assert (N1 : tnodup (TObj C19_ex_ms1) = true) by (vm_compute; reflexivity).
+  assert (N2 : tnodup C19_ex_t2 = true) by (vm_compute; reflexivity).
+  assert (C : compatible (den (TObj C19_ex_ms1)) (den C19_ex_t2) = true) by (vm_compute; reflexivity).
+  assert (Pa : parse C19_ex_e1 = Some C19_ex_ta) by (vm_compute; reflexivity).
+  assert (Pb : parse C19_ex_e2 = Some C19_ex_tb) by (vm_compute; reflexivity).
+  assert (Na : tnodup C19_ex_ta = true) by (vm_compute; reflexivity).
+  assert (Nb : tnodup C19_ex_tb = true) by (vm_compute; reflexivity).
+  assert (Eq : api_equal4 C19_ex_e1 C19_ex_e2 = Some (jeq (den C19_ex_ta) (den C19_ex_tb))).
+  { apply (C19_Equal C19_ex_e1 C19_ex_e2 C19_ex_ta C19_ex_tb Pa Pb eq_refl eq_refl Na Nb); vm_compute; reflexivity. }
+  split; [|split; [|split; [|split; [|split]]]].
+  - destruct (C19_MergePatch C19_ex_doc C19_ex_patch C19_ex_td C19_ex_tp Pd Pp NN Nd Np) as [[S _] | [_ H]];
+      [discriminate S | exact H].
+  - exact (C19_MergePatch_output_bytes C19_ex_doc C19_ex_patch C19_ex_td C19_ex_tp Pd Pp NN Nd Np eq_refl).
+  - destruct (C19_MergeMergePatches C19_ex_p1 C19_ex_p2 C19_ex_ms1 C19_ex_t2 P1 P2 N1 N2 C) as [[S _] | [_ H]];
+      [discriminate S | exact H].
+  - exact (C19_MergeMergePatches_output_bytes C19_ex_p1 C19_ex_p2 C19_ex_ms1 C19_ex_t2 P1 P2 N1 N2 C eq_refl).
+  - exact Eq.
+  - apply (C19_Equal_sound C19_ex_e1 C19_ex_e2 C19_ex_ta C19_ex_tb Pa Pb eq_refl eq_refl Na Nb).
+    vm_compute. reflexivity.
+Qed.
+Print Assumptions C19_main_theorem_applies.
